@@ -10,6 +10,7 @@ import (
 )
 
 type evaluator struct {
+	over map[*Term]*big.Int // values forced by the path condition (bool atoms, var == const)
 	seed uint64
 	memo map[*Term]*big.Int
 	ok   bool
@@ -45,6 +46,10 @@ func trunc(x *big.Int, w int) *big.Int {
 
 func (e *evaluator) eval(t *Term) *big.Int {
 	if v, ok := e.memo[t]; ok {
+		return v
+	}
+	if v, ok := e.over[t]; ok {
+		e.memo[t] = v
 		return v
 	}
 	v := e.eval1(t)
@@ -191,10 +196,35 @@ func (e *evaluator) eval1(t *Term) *big.Int {
 	return big.NewInt(0)
 }
 
-// maybeEqual reports whether the argument tuples agree under two pseudo-random assignments.
-func maybeEqual(x, y []*Term) bool {
+// pcOverrides extracts forced values from simple path-condition atoms: b, not b, t == const.
+func pcOverrides(pc []*Term, binds map[*Term]uint64) map[*Term]*big.Int {
+	o := map[*Term]*big.Int{}
+	for t, v := range binds {
+		o[t] = new(big.Int).SetUint64(v)
+	}
+	for _, p := range pc {
+		switch {
+		case p.Op == ONot:
+			o[p.Args[0]] = big.NewInt(0)
+		case p.Op == OEq && p.Args[1].IsConst():
+			o[p.Args[0]] = new(big.Int).SetUint64(p.Args[1].Val)
+			o[p] = big.NewInt(1)
+		case p.Op == OEq && p.Args[0].IsConst():
+			o[p.Args[1]] = new(big.Int).SetUint64(p.Args[0].Val)
+			o[p] = big.NewInt(1)
+		default:
+			o[p] = big.NewInt(1)
+		}
+	}
+	return o
+}
+
+// maybeEqual reports whether the argument tuples agree under two pseudo-random assignments
+// (restricted by the simple atoms of the path condition).
+func maybeEqual(x, y []*Term, over map[*Term]*big.Int) bool {
 	for _, seed := range []uint64{0x9e3779b97f4a7c15, 0xc2b2ae3d27d4eb4f} {
 		e := newEvaluator(seed)
+		e.over = over
 		for i := range x {
 			if e.eval(x[i]).Cmp(e.eval(y[i])) != 0 && e.ok {
 				return false
